@@ -24,10 +24,22 @@ def run(rep, tier):
                                 extra=("names",), nontrivial=nontrivial, oracle_props={"C18"},
                                 sample_fmt=sample, mask_model=mask_names)
     rep.coverage.update(agg)
+    # ---- bounded-exhaustive validation (support for the tie, not a proof): EVERY sequence of k named
+    # resources / named windows / anonymous windows over all names of length <= 2 on a small alphabet
+    from .. import mm
+    k = 2 if tier == "quick" else 3
+    ex = runner.correspondence(rep, prop=PROP, mod_name="harness.mm", driver_kind="mmap", ncases=mm.exh_names_count(k),
+                               extra=("exhnames", k), oracle_props={"C18"}, mask_model=mask_names)
+    rep.coverage["bounded_exhaustive"] = {"sequence_length": k, "names": len(mm.exh_names(k)), "cases": ex["evaluations"],
+                                          "correspondence_diffs": ex["correspondence_diffs"], "oracle_failures": ex["oracle_failures"],
+                                          "distribution": ex["distribution"]}
+    rep.coverage["evaluations"] = agg["evaluations"] + ex["evaluations"]
+    rep.coverage["traces_validated_against_impl"] = agg["traces_validated_against_impl"] + ex["traces_validated_against_impl"]
     rep.coverage["rule"] = ("histories of add_resource/add_window (named and anonymous, nested) with names drawn from the "
                             "adversarial alphabet {'a','b','0',0,1} (lengths 1-4) on real maps with roomy address spaces "
                             "(so that only naming decides acceptance); accept/refuse of every call and the final path list "
                             "are compared with the Lean model, and 'accepted iff unrelated to every visible name' is "
                             "evaluated on the real answers; non-trivial = history containing an equal-name, a prefix and an "
-                            "extension conflict and an anonymous-window absorption")
+                            "extension conflict and an anonymous-window absorption; plus ALL sequences of length 2 (quick) / 3 (thorough) "
+                            "of named resources / named windows / anonymous windows over every name of length <= 2 (bounded_exhaustive)")
     rep.assumptions += ["bool name parts (True == 1 in Python) are outside the generator and not modelled"]
